@@ -56,6 +56,9 @@ def c17_board(req):
         lo = ts(sb.idxToDate(i))
         if not (lo <= t < lo + g):
             note(f"time(index({t}))={lo} does not frame it")
+        ic = sb.dateToIdx(dt(t), True)
+        if ic != i:
+            note(f"index({t}) with clamping requested = {ic}, without = {i} (an instant of the window needs no clamping)")
         if i + 1 < n and not t < ts(sb.idxToDate(i + 1)):
             note(f"t >= time(index(t)+1) at {t}")
     for i in list(range(-3, 0)) + list(range(n, n + 3)):
